@@ -134,6 +134,11 @@ def job_compact(reps, name="i"):
         return "roundtrip"
     eng = Engine(timeout_ms=60000)
     eng.prefer = P.small_witness_prefs(len(reps))
+    if sum(reps) > 1000:
+        # many items: the real constructor's lower-bound routine is slow unless everything is tiny
+        nd = len(reps)
+        tiny = [z3.Int("W"), z3.Int("H")] + [z3.Int(f"w{i}") for i in range(nd)] + [z3.Int(f"h{i}") for i in range(nd)]
+        eng.prefer = [z3.And(*[d <= 2 for d in tiny]), z3.And(*[d <= 4 for d in tiny])] + list(eng.prefer)
     ok = eng.explore(h)
     common = dict(paths=eng.paths, queries=dict(sat=eng.n_sat, unsat=eng.n_unsat, unknown=eng.unknown), solver_s=round(eng.t_solver, 2), vacuity=dict(outcomes=eng.outcomes))
     if eng.violations:
@@ -345,7 +350,8 @@ def jobs(tier):
     import os
     seed = int(os.environ.get("VERIF_SEED", "0") or 0)
     js = [Job("selftest", job_selftest, dict(seed=seed), "selftest", 600)]
-    for reps in ([1], [2], [1, 1], [1, 3], [2, 1], [1, 1, 1], [1, 2, 1]) + (([2, 2, 1], [1, 1, 1, 1]) if tier == "thorough" else ()):
+    # multiplicities up to the constructor's limit (10^8 items of one type), around powers of ten
+    for reps in ([1], [2], [1, 1], [1, 3], [2, 1], [1, 1, 1], [1, 2, 1], [1, 1_000_001], [100_000_000], [999_999, 10]) + (([2, 2, 1], [1, 1, 1, 1], [10_000_001, 1]) if tier == "thorough" else ()):
         nm = COMPACT_NAMES[len(js) % len(COMPACT_NAMES)]
         js.append(Job(f"compact/reps{'-'.join(map(str, reps))}/{nm}", job_compact, dict(reps=list(reps), name=nm), "instance_compact_str", 900))
     for reps in ([1], [2], [1, 1]) + (([1, 2], [1, 1, 1]) if tier == "thorough" else ()):
